@@ -58,3 +58,29 @@ pub fn jr<'a>(m: Stream<(u32, u32), P<'a>>, r: Stream<(u32, u32), P<'a>>) {
         .assume_ordering::<TotalOrder>(nondet!(/** harness sorts the output */))
         .embedded_output("out");
 }
+
+// ------------------------------------------------------------------------------------ C35
+// Cluster-addressed sends: the generated serialize / deserialize closures of
+// `Stream::demux(.., TCP.fail_stop().bincode())` between two clusters.
+use hydro_lang::live_collections::stream::NoOrder;
+use hydro_lang::location::MemberId;
+
+pub struct Src {}
+pub struct Dst {}
+
+/// a nested payload: struct-like tuple, option, vec, string, enum (Result), signed integer
+pub type Rich = (u32, Option<Vec<String>>, Result<i64, String>, bool);
+
+pub fn dm_u32<'a>(
+    dst: &Cluster<'a, Dst>,
+    input: Stream<(MemberId<Dst>, u32), Cluster<'a, Src>>,
+) -> Stream<(MemberId<Src>, u32), Cluster<'a, Dst>, Unbounded, NoOrder> {
+    input.demux(dst, TCP.fail_stop().bincode().name("dm_data")).entries()
+}
+
+pub fn dm_rich<'a>(
+    dst: &Cluster<'a, Dst>,
+    input: Stream<(MemberId<Dst>, Rich), Cluster<'a, Src>>,
+) -> Stream<(MemberId<Src>, Rich), Cluster<'a, Dst>, Unbounded, NoOrder> {
+    input.demux(dst, TCP.fail_stop().bincode().name("dm_data")).entries()
+}
